@@ -317,6 +317,11 @@ def build(root: str | os.PathLike[str], kind: str, api: str, out_dir: str | os.P
     res = Built(kind, api, False, out_dir=str(out_dir))
     cfg = dict(config_settings) if config_settings else None
     ctx = logged() if want_log else contextlib.nullcontext(None)
+    # WheelBuilder writes to `tempfile.mkstemp(suffix=".whl")` first and leaves that file behind when the build raises: keep such
+    # leftovers inside the scratch directory of this build (removed with it) instead of the system temp directory
+    import tempfile
+    old_tmpdir = tempfile.tempdir
+    tempfile.tempdir = str(Path(out_dir).parent)
     try:
         with warnings.catch_warnings(record=True) as w, ctx as log:
             warnings.simplefilter("always")
@@ -349,6 +354,8 @@ def build(root: str | os.PathLike[str], kind: str, api: str, out_dir: str | os.P
         res.ok = True
     except Exception as e:  # noqa: BLE001 - a failing build is data, not a harness error
         res.error = f"{type(e).__name__}: {e}"
+    finally:
+        tempfile.tempdir = old_tmpdir
     try:
         res.listing = sorted(os.listdir(out_dir))
     except OSError:
